@@ -9,6 +9,9 @@
   `s1` on the session - in particular from `s1` itself.
 
   Hypotheses (`Admissible`): no receipts (the receipt queue is the one resource all connections share by design, C19);
+  no signed latency requests, from servers in which no measurement runs (`NoLat`, kept by every other request): the
+  answer to a measurement given up when its participant switches sessions (F37b) reaches a connection that is by then a
+  member of the session it joins, and depends on what that connection did in the session it left;
   a member of the session does not ask to join ANOTHER session by id (whether that session exists is, legitimately,
   visible to the members it would leave - it may leave by disconnecting or by asking for a session of its own); one member, the anchor, only listens (so the session does not end; what
   happens around the end of a session and the reuse of its id is C07 / C10).  The scheduler in front of the handler
@@ -32,6 +35,103 @@ def stepReq (cfg : Cfg) (srv : Server) (e : RE) : Server × List Delivery :=
     (((srv.handleReq cfg e.c e.r e.hint).1.disconnect cfg e.c).1,
      (srv.handleReq cfg e.c e.r e.hint).2.1 ++ ((srv.handleReq cfg e.c e.r e.hint).1.disconnect cfg e.c).2)
   | _ => ((srv.handleReq cfg e.c e.r e.hint).1, (srv.handleReq cfg e.c e.r e.hint).2.1)
+
+/-! ### no signed latency measurement anywhere (kept by every request that does not start one) -/
+
+def NoLat (srv : Server) : Prop := ∀ s ∈ srv.sessions, s.lats = []
+
+theorem NoLat.setSession {srv : Server} (h : NoLat srv) {s' : Session} (hs : s'.lats = []) : NoLat (srv.setSession s') := by
+  intro x hx
+  simp only [Server.setSession, List.mem_map] at hx
+  obtain ⟨y, hy, rfl⟩ := hx
+  split
+  · exact hs
+  · exact h y hy
+
+theorem NoLat.leave {cfg : Cfg} {srv : Server} (h : NoLat srv) {s : Session} (hs : s ∈ srv.sessions) (p : Part) :
+    NoLat (srv.leave cfg s p).1 := by
+  unfold Server.leave
+  have hl := Session.leave_lats_nil cfg s p.pid (h s hs)
+  rcases hle : s.leave cfg p.pid with ⟨s', ds⟩
+  rw [hle] at hl
+  simp only []
+  split
+  · intro x hx
+    exact h x (List.mem_filter.mp hx).1
+  · exact NoLat.setSession h hl
+
+theorem NoLat.joinFresh {cfg : Cfg} {srv : Server} (h : NoLat srv) (c rid ots : Nat) (t : JoinTarget) (hint : Nat) :
+    NoLat (srv.joinFresh cfg c rid ots t hint).1 := by
+  unfold Server.joinFresh
+  cases t with
+  | bogus => exact h
+  | id n =>
+    simp only []
+    cases hf : srv.findSession n with
+    | none => exact h
+    | some s =>
+      simp only []
+      apply NoLat.setSession h
+      simp only [Session.addPart]
+      exact h s (Server.findSession_some hf).1
+  | new =>
+    simp only []
+    intro x hx
+    simp only [List.mem_append, List.mem_singleton] at hx
+    rcases hx with hx | rfl
+    · exact h x hx
+    · simp [Session.addPart]
+
+theorem NoLat.disconnect {cfg : Cfg} {srv : Server} (h : NoLat srv) (c : Nat) : NoLat (srv.disconnect cfg c).1 := by
+  unfold Server.disconnect
+  cases hl : srv.locate c with
+  | none => exact h
+  | some sp =>
+    obtain ⟨s, p⟩ := sp
+    simp only []
+    exact NoLat.leave h (Server.locate_some hl).1 p
+
+theorem NoLat.handleReq {cfg : Cfg} {srv : Server} (h : NoLat srv) (c : Nat) (r : Req) (hint : Nat) (hr : r.isLatency = false) :
+    NoLat (srv.handleReq cfg c r hint).1 := by
+  have other : ∀ (r : Req), r.isLatency = false →
+      NoLat (match srv.locate c with
+        | none => (srv, (notJoined c r).1, (notJoined c r).2)
+        | some (s, p) => ((srv.setSession (s.handle cfg p r hint).1), (s.handle cfg p r hint).2.1, (s.handle cfg p r hint).2.2)).1 := by
+    intro r hr
+    cases hl : srv.locate c with
+    | none => exact h
+    | some sp =>
+      obtain ⟨s, p⟩ := sp
+      exact NoLat.setSession h (Session.handle_lats_nil cfg p r hint s (h s (Server.locate_some hl).1) hr)
+  cases r <;> simp only [Server.handleReq] <;> first
+    | exact h
+    | exact other _ hr
+    | skip
+  case join rid ots t =>
+    unfold Server.join
+    cases hl : srv.locate c with
+    | none => exact NoLat.joinFresh h c rid ots t hint
+    | some sp =>
+      obtain ⟨s, p⟩ := sp
+      simp only []
+      split
+      · exact h
+      · split
+        · exact h
+        · exact NoLat.joinFresh (NoLat.leave h (Server.locate_some hl).1 p) c rid ots t hint
+  case receipt rid a b d =>
+    unfold Server.handleReceipt
+    split
+    · exact h
+    · split
+      · exact h
+      · exact h
+
+theorem NoLat.step {cfg : Cfg} {srv : Server} (h : NoLat srv) (e : RE) (hr : e.r.isLatency = false) : NoLat (stepReq cfg srv e).1 := by
+  unfold stepReq
+  split
+  · exact NoLat.disconnect (NoLat.handleReq h e.c e.r e.hint hr) e.c
+  · exact NoLat.handleReq h e.c e.r e.hint hr
 
 def members (srv : Server) (xid : Nat) : List Nat :=
   match srv.findSession xid with
@@ -76,7 +176,7 @@ def isJoinNew : Req → Bool
 def Admissible (cfg : Cfg) (xid a : Nat) : Server → List RE → Prop
   | _, [] => True
   | srv, e :: es =>
-    isReceipt e.r = false ∧ e.c ≠ a ∧
+    isReceipt e.r = false ∧ e.r.isLatency = false ∧ e.c ≠ a ∧
     ((members srv xid).contains e.c = true → joinsOther xid e.r = false) ∧
     Admissible cfg xid a (stepReq cfg srv e).1 es
 
@@ -265,7 +365,7 @@ theorem filter_none {α : Type} (p : α → Bool) (l : List α) (h : ∀ a ∈ l
 
 /-- a connection that is not in the session joins it by its id, wherever it comes from: the session gains it as a new
     participant, and what the members (the newcomer included) are sent is the join's deliveries -/
-theorem join_x (cfg : Cfg) {srv : Server} (h : srv.WF) {x : Session} (hx : x ∈ srv.sessions) (c rid ots hint : Nat)
+theorem join_x (cfg : Cfg) {srv : Server} (h : srv.WF) (hnl : NoLat srv) {x : Session} (hx : x ∈ srv.sessions) (c rid ots hint : Nat)
     (hc : c ∉ x.parts.map (·.conn)) :
     (x.addPart c).1 ∈ (stepReq cfg srv ⟨c, .join rid ots (.id x.id), hint⟩).1.sessions ∧
     seen (stepReq cfg srv ⟨c, .join rid ots (.id x.id), hint⟩).1 x.id (stepReq cfg srv ⟨c, .join rid ots (.id x.id), hint⟩).2 =
@@ -316,13 +416,14 @@ theorem join_x (cfg : Cfg) {srv : Server} (h : srv.WF) {x : Session} (hx : x ∈
       simp; exact hne
     have h2 : srv.resolves (.id x.id) = true := by
       simp [Server.resolves, Props.C07.findSession_of_mem h.ids_nodup hx]
-    simp only [h1, h2, Bool.false_eq_true, if_false, Bool.not_true]
+    have hab : y.abandoned q = [] := Session.abandoned_nil (hnl y hy) q
+    simp only [h1, h2, Bool.false_eq_true, if_false, Bool.not_true, hab, List.nil_append]
     have hfr := leave_frame_other cfg h hy hx hne (p := q)
     have hw1 := Server.leave_WF cfg h hy (p := q)
     simp only [fresh _ hw1 hfr.1]
     have hw' : ((srv.leave cfg y q).1.setSession (x.addPart c).1).WF := by
       have := Server.handleReq_WF cfg h c (.join rid ots (.id x.id)) hint
-      simp only [Server.handleReq, Server.join, hl, h1, h2, Bool.false_eq_true, if_false, Bool.not_true, fresh _ hw1 hfr.1] at this
+      simp only [Server.handleReq, Server.join, hl, h1, h2, Bool.false_eq_true, if_false, Bool.not_true, fresh _ hw1 hfr.1, hab, List.nil_append] at this
       exact this
     have hx' := mem_setSession_self (srv := (srv.leave cfg y q).1) hfr.1 hxid
     refine ⟨hx', ?_⟩
@@ -382,7 +483,7 @@ theorem member_any (cfg : Cfg) {srv : Server} (h : srv.WF) {x : Session} (hx : x
 
 /-- a member leaves by asking for a session of its own: the session loses it, and its remaining members are sent the
     departure - what the leaver and its new session get is not theirs to see -/
-theorem member_leaves_by_new (cfg : Cfg) {srv : Server} (h : srv.WF) {x : Session} (hx : x ∈ srv.sessions) {p : Part}
+theorem member_leaves_by_new (cfg : Cfg) {srv : Server} (h : srv.WF) (hnl : NoLat srv) {x : Session} (hx : x ∈ srv.sessions) {p : Part}
     (hp : p ∈ x.parts) {a : Nat} (ha : a ∈ x.parts.map (·.conn)) (hne : a ≠ p.conn) (rid ots hint : Nat) :
     (x.leave cfg p.pid).1 ∈ (stepReq cfg srv ⟨p.conn, .join rid ots .new, hint⟩).1.sessions ∧
     seen (stepReq cfg srv ⟨p.conn, .join rid ots .new, hint⟩).1 x.id (stepReq cfg srv ⟨p.conn, .join rid ots .new, hint⟩).2 =
@@ -402,7 +503,8 @@ theorem member_leaves_by_new (cfg : Cfg) {srv : Server} (h : srv.WF) {x : Sessio
       (((srv.setSession (x.leave cfg p.pid).1).joinFresh cfg p.conn rid ots .new hint).1,
        (x.leave cfg p.pid).2 ++ ((srv.setSession (x.leave cfg p.pid).1).joinFresh cfg p.conn rid ots .new hint).2.1) := by
     unfold stepReq
-    simp only [Server.handleReq, Server.join, hl, hne1, Server.resolves, Bool.false_eq_true, if_false, Bool.not_true, hleave]
+    have hab : x.abandoned p = [] := Session.abandoned_nil (hnl x hx) p
+    simp only [Server.handleReq, Server.join, hl, hne1, Server.resolves, Bool.false_eq_true, if_false, Bool.not_true, hleave, hab, List.nil_append]
     simp [Server.joinFresh]
   rw [hstep] at hw' ⊢
   have hxin : (x.leave cfg p.pid).1 ∈ ((srv.setSession (x.leave cfg p.pid).1).joinFresh cfg p.conn rid ots .new hint).1.sessions := by
@@ -435,7 +537,7 @@ theorem member_leaves_by_new (cfg : Cfg) {srv : Server} (h : srv.WF) {x : Sessio
   rw [hnone, List.append_nil]
 
 /-- a request that concerns the session does the same to it, and shows its members the same, in both servers -/
-theorem insider_step (cfg : Cfg) {xid a : Nat} {s1 s2 : Server} (hA : Agree xid a s1 s2) (e : RE)
+theorem insider_step (cfg : Cfg) {xid a : Nat} {s1 s2 : Server} (hA : Agree xid a s1 s2) (hn1 : NoLat s1) (hn2 : NoLat s2) (e : RE)
     (hin : insider s1 xid e = true) (hrc : isReceipt e.r = false) (hea : e.c ≠ a)
     (hj : (members s1 xid).contains e.c = true → joinsOther xid e.r = false) :
     seen (stepReq cfg s1 e).1 xid (stepReq cfg s1 e).2 = seen (stepReq cfg s2 e).1 xid (stepReq cfg s2 e).2 ∧
@@ -459,8 +561,8 @@ theorem insider_step (cfg : Cfg) {xid a : Nat} {s1 s2 : Server} (hA : Agree xid 
         cases t <;> simp at hnew
         simp only at hpc
         subst hpc
-        have r1 := member_leaves_by_new cfg hA.wf1 hx1 hp hax hne rid ots hint
-        have r2 := member_leaves_by_new cfg hA.wf2 hx2 hp hax hne rid ots hint
+        have r1 := member_leaves_by_new cfg hA.wf1 hn1 hx1 hp hax hne rid ots hint
+        have r2 := member_leaves_by_new cfg hA.wf2 hn2 hx2 hp hax hne rid ots hint
         exact ⟨by rw [r1.2.1, r2.2.1], hw1, hw2, _, r1.1, r2.1, (Session.leave_frame cfg x p.pid).1, r1.2.2⟩
     have hnew' : isJoinNew e.r = false := by simpa using hnew
     have r1 := member_any cfg hA.wf1 hx1 hp hax hne e.r e.hint hrc hj' hnew'
@@ -484,8 +586,8 @@ theorem insider_step (cfg : Cfg) {xid a : Nat} {s1 s2 : Server} (hA : Agree xid 
       cases t <;> simp at hjoin
       case id n =>
         subst hjoin
-        have r1 := join_x cfg hA.wf1 hx1 c rid ots hint hc
-        have r2 := join_x cfg hA.wf2 hx2 c rid ots hint hc
+        have r1 := join_x cfg hA.wf1 hn1 hx1 c rid ots hint hc
+        have r2 := join_x cfg hA.wf2 hn2 hx2 c rid ots hint hc
         refine ⟨by rw [r1.2, r2.2], hw1, hw2, _, r1.1, r2.1, rfl, ?_⟩
         simp only [Session.addPart, List.map_append, List.mem_append]
         exact Or.inl hax
@@ -494,32 +596,33 @@ theorem insider_step (cfg : Cfg) {xid a : Nat} {s1 s2 : Server} (hA : Agree xid 
     instance the same server), what the members of that session are sent along any admissible history is what they are
     sent along the history with every request that does not concern the session removed. -/
 theorem C03_noninterference (cfg : Cfg) (xid a : Nat) : ∀ (es : List RE) (s1 s2 : Server), Agree xid a s1 s2 →
+    NoLat s1 → NoLat s2 →
     Admissible cfg xid a s1 es → obs cfg xid s1 es = obs cfg xid s2 (proj cfg xid s1 es) := by
   intro es
   induction es with
-  | nil => intro s1 s2 _ _; rfl
+  | nil => intro s1 s2 _ _ _ _; rfl
   | cons e es ih =>
-    intro s1 s2 hA hadm
-    obtain ⟨hrc, hea, hj, hrest⟩ := hadm
+    intro s1 s2 hA hn1 hn2 hadm
+    obtain ⟨hrc, hlat, hea, hj, hrest⟩ := hadm
     simp only [obs, proj]
     by_cases hin : insider s1 xid e = true
     · simp only [hin, if_true, obs]
-      have r := insider_step cfg hA e hin hrc hea hj
-      rw [r.1, ih _ _ r.2 hrest]
+      have r := insider_step cfg hA hn1 hn2 e hin hrc hea hj
+      rw [r.1, ih _ _ r.2 (NoLat.step hn1 e hlat) (NoLat.step hn2 e hlat) hrest]
     · have hin' : insider s1 xid e = false := by simpa using hin
       simp only [hin', Bool.false_eq_true, if_false]
       obtain ⟨x, hx1, hx2, hid, hax⟩ := hA.same
       subst hid
       have r := outsider_step cfg hA.wf1 hx1 e hin'
       rw [r.2, List.nil_append]
-      exact ih _ _ ⟨stepReq_WF cfg hA.wf1 e, hA.wf2, x, r.1, hx2, rfl, hax⟩ hrest
+      exact ih _ _ ⟨stepReq_WF cfg hA.wf1 e, hA.wf2, x, r.1, hx2, rfl, hax⟩ (NoLat.step hn1 e hlat) hn2 hrest
 
 /-- the same, from one server: removing the requests that do not concern a session changes nothing of what its
     members are sent -/
-theorem C03_noninterference_self (cfg : Cfg) (srv : Server) (hw : srv.WF) (x : Session) (hx : x ∈ srv.sessions) (a : Nat)
+theorem C03_noninterference_self (cfg : Cfg) (srv : Server) (hw : srv.WF) (hn : NoLat srv) (x : Session) (hx : x ∈ srv.sessions) (a : Nat)
     (ha : a ∈ x.parts.map (·.conn)) (es : List RE) (hadm : Admissible cfg x.id a srv es) :
     obs cfg x.id srv es = obs cfg x.id srv (proj cfg x.id srv es) :=
-  C03_noninterference cfg x.id a es srv srv ⟨hw, hw, x, hx, hx, rfl, ha⟩ hadm
+  C03_noninterference cfg x.id a es srv srv ⟨hw, hw, x, hx, hx, rfl, ha⟩ hn hn hadm
 
 
 /-! ### the hypotheses are satisfiable and the projection does remove something -/
@@ -540,5 +643,8 @@ example : (obs {} 1 exampleStart exampleHistory).length = 9 ∧
 example : Admissible {} 1 1 exampleStart exampleHistory := by
   simp only [exampleHistory, Admissible]
   decide +kernel
+
+/-- no measurement is running in the example's start -/
+example : ∀ s ∈ exampleStart.sessions, s.lats = [] := by decide +kernel
 
 end Hagall.Props.C03Trace
